@@ -11,6 +11,7 @@ import (
 	"sort"
 	"strconv"
 	"strings"
+	"sync"
 	"time"
 )
 
@@ -121,12 +122,12 @@ func cmdCheck(args []string) int {
 
 	type oblRes struct {
 		name, base, fn, kind, src, pos string
-		ok                            bool
-		status, solver, output, model string
-		timeS                         float64
-		expectSat                     bool
-		query                         string
-		at                            int
+		ok                             bool
+		status, solver, output, model  string
+		timeS                          float64
+		expectSat                      bool
+		query                          string
+		at                             int
 	}
 	var all []oblRes
 	var fevs []funcEvidence
@@ -156,12 +157,23 @@ func cmdCheck(args []string) int {
 		dischargeAll(vcs, timeout, sd, runtime.NumCPU())
 		// second chance for obligations that did not get a definite answer (machine load must
 		// not turn into an alarm): one more race with a longer timeout and another seed
-		for _, r := range results {
-			for _, o := range r.VC.obls {
-				if !o.ok() && !o.ExpectSat && o.Status != "sat" && claimed[baseName(o.Name)] {
-					r.VC.race(o, timeout*3, sd+7)
+		{
+			var rwg sync.WaitGroup
+			sem := make(chan struct{}, 3)
+			for _, r := range results {
+				for _, o := range r.VC.obls {
+					if !o.ok() && !o.ExpectSat && o.Status != "sat" && claimed[baseName(o.Name)] {
+						rwg.Add(1)
+						go func(vc *VC, o *Obl) {
+							defer rwg.Done()
+							sem <- struct{}{}
+							vc.race(o, timeout*3, sd+7)
+							<-sem
+						}(r.VC, o)
+					}
 				}
 			}
+			rwg.Wait()
 		}
 		for _, r := range results {
 			fe := funcEvidence{Function: r.Key, Unsupported: append(append([]string{}, r.Unsupported...), r.SpecErrs...), Notes: r.VC.notes}
@@ -295,6 +307,12 @@ func cmdCheck(args []string) int {
 		}
 		os.WriteFile(strings.TrimSuffix(p, ".json")+".smt2", []byte(o.query), 0o644)
 		tail := " no-failing-input-found"
+		if o.model == "" && o.status != "unsat" {
+			// no definite refutation: ask for the solver's candidate model (quantified prelude axioms make
+			// the answer "unknown"); the candidate is only believed if it replays on the real code
+			o.model = candidateModel(o.query)
+			rep["model"] = o.model
+		}
 		if cex := tryReplay(eng, id, o.fn, o.name, o.model); cex != nil {
 			rep["failing_input"] = cex.Input
 			rep["replay_test"] = cex.Test
@@ -336,6 +354,9 @@ func cmdCheck(args []string) int {
 			report(o, "vacuity guard failed (contract or path became contradictory)")
 		default:
 			unproved = append(unproved, o.name+" ["+o.status+"]")
+			if o.kind == "post" {
+				assumed["postcondition written but NOT discharged; callers under contract assume it: "+o.name] = true
+			}
 		}
 	}
 	for _, k := range missingFuncs {
@@ -397,16 +418,16 @@ func cmdCheck(args []string) int {
 		"property_id": id, "tier": *tier, "seed": seed, "level": "proof",
 		"coverage": map[string]interface{}{
 			"obligations": nObl, "discharged": nDis,
-			"checker_cmd": fmt.Sprintf("bin/govc check -property %s -tier %s  (VCs from go/ssa of /repo, discharged by z3-new 5.1.0 | z3 4.8.12 | cvc5 1.0, first unsat wins, %ds per obligation, %d seed(s))", id, *tier, timeout, len(seeds)),
-			"trusted_base": []string{"govc VC generator (/verif/govc)", "golang.org/x/tools/go/ssa v0.29.0", "z3 5.1.0 / z3 4.8.12 / cvc5 1.0", "prelude axioms (/verif/govc/prelude.smt2; lemma obligations in /verif/lemmas)"},
-			"functions":               fevs,
-			"unproved_unclaimed":      unproved,
-			"claimed_not_generated":   missingClaims,
-			"known_findings_hit":      knownHit,
-			"contracts_from_overlay":  eng.overlayed,
-			"samples":                 samples,
-			"engine_problems":         engineProblems,
-			"explanation":             "each claimed obligation is one SMT query (definitions of the function's SSA + contract assumptions + negated goal) that returned unsat on every seed; obligations listed under unproved_unclaimed are contracts written but not discharged and are not counted",
+			"checker_cmd":            fmt.Sprintf("bin/govc check -property %s -tier %s  (VCs from go/ssa of /repo, discharged by z3-new 5.1.0 | z3 4.8.12 | cvc5 1.0, first unsat wins, %ds per obligation, %d seed(s))", id, *tier, timeout, len(seeds)),
+			"trusted_base":           []string{"govc VC generator (/verif/govc)", "golang.org/x/tools/go/ssa v0.29.0", "z3 5.1.0 / z3 4.8.12 / cvc5 1.0", "prelude axioms (/verif/govc/prelude.smt2; lemma obligations in /verif/lemmas)"},
+			"functions":              fevs,
+			"unproved_unclaimed":     unproved,
+			"claimed_not_generated":  missingClaims,
+			"known_findings_hit":     knownHit,
+			"contracts_from_overlay": eng.overlayed,
+			"samples":                samples,
+			"engine_problems":        engineProblems,
+			"explanation":            "each claimed obligation is one SMT query (definitions of the function's SSA + contract assumptions + negated goal) that returned unsat on every seed; obligations listed under unproved_unclaimed are contracts written but not discharged and are not counted",
 		},
 		"assumptions": asm,
 		"wall_s":      time.Since(start).Seconds(),
